@@ -29,6 +29,56 @@ type poolTracker struct {
 	ids   map[*pool.Message]int
 	log   []lcEvent
 	holds map[*pool.Message]uint64
+	// accept, when non-nil, restricts the pool events that are recorded to the pools of the running
+	// scenario (late events of goroutines that an earlier scenario left behind are not part of its trace)
+	accept map[*pool.Pool]bool
+}
+
+// scenario starts a new trace: the log and the numbering are reset; only events of the given pools are
+// recorded from now on (no pools = all).
+func (t *poolTracker) scenario(pools ...*pool.Pool) {
+	t.mu.Lock()
+	t.log = nil
+	t.ids = map[*pool.Message]int{}
+	t.holds = map[*pool.Message]uint64{}
+	t.accept = nil
+	if len(pools) > 0 {
+		t.accept = map[*pool.Pool]bool{}
+		for _, p := range pools {
+			t.accept[p] = true
+		}
+	}
+	t.mu.Unlock()
+}
+
+func (t *poolTracker) addPool(p *pool.Pool) {
+	t.mu.Lock()
+	if t.accept == nil {
+		t.accept = map[*pool.Pool]bool{}
+	}
+	t.accept[p] = true
+	t.mu.Unlock()
+}
+
+func (t *poolTracker) skip(p *pool.Pool) bool { return t.accept != nil && !t.accept[p] }
+
+// helpers for the history runners shared with other properties: no-ops unless a C12 run is in progress
+func trkHold(m *pool.Message) {
+	if activeTracker != nil && m != nil {
+		activeTracker.Hold(m)
+	}
+}
+
+func trkUnhold(m *pool.Message) {
+	if activeTracker != nil && m != nil {
+		activeTracker.Unhold(m)
+	}
+}
+
+func trkAppRel(m *pool.Message) {
+	if activeTracker != nil && m != nil {
+		activeTracker.AppRel(m)
+	}
 }
 
 func newPoolTracker() *poolTracker {
@@ -44,8 +94,12 @@ func (t *poolTracker) id(m *pool.Message) int {
 	return v
 }
 
-func (t *poolTracker) Released(_ *pool.Pool, m *pool.Message) {
+func (t *poolTracker) Released(p *pool.Pool, m *pool.Message) {
 	t.mu.Lock()
+	if t.skip(p) {
+		t.mu.Unlock()
+		return
+	}
 	t.log = append(t.log, lcEvent{"Rel", t.id(m), true})
 	if ch, ok := t.relCh[m]; ok {
 		close(ch)
@@ -73,17 +127,25 @@ func (t *poolTracker) waitReleased(m *pool.Message, d time.Duration) {
 	}
 }
 
-func (t *poolTracker) Recycled(_ *pool.Pool, m *pool.Message) {
+func (t *poolTracker) Recycled(p *pool.Pool, m *pool.Message) {
 	m.VerifPoison()
 	t.mu.Lock()
+	if t.skip(p) {
+		t.mu.Unlock()
+		return
+	}
 	t.log = append(t.log, lcEvent{"Rec", t.id(m), true})
 	t.mu.Unlock()
 }
 
-func (t *poolTracker) Reacquired(_ *pool.Pool, m *pool.Message) {
+func (t *poolTracker) Reacquired(p *pool.Pool, m *pool.Message) {
 	ok := m.VerifPoisoned()
 	m.VerifUnpoison()
 	t.mu.Lock()
+	if t.skip(p) {
+		t.mu.Unlock()
+		return
+	}
 	t.log = append(t.log, lcEvent{"Reacq", t.id(m), ok})
 	t.mu.Unlock()
 }
@@ -126,6 +188,13 @@ func (t *poolTracker) AppRel(m *pool.Message) {
 	t.mu.Lock()
 	t.log = append(t.log, lcEvent{"AppRel", t.id(m), true})
 	t.mu.Unlock()
+}
+
+// peek returns the events recorded so far (the slice is only appended to).
+func (t *poolTracker) peek() []lcEvent {
+	t.mu.Lock()
+	defer t.mu.Unlock()
+	return t.log
 }
 
 func (t *poolTracker) take() []lcEvent {
